@@ -522,7 +522,8 @@ def _classify_errors(spec, errs, info):
     keys = []
     for path, name, val in errs:
         m = re.search(r"/Container (\d+)", path)
-        ci = int(m.group(1)) if m else None
+        # the verifier names a container by offset // 0x400, i.e. 0, 16, 32 for the version-2 slots
+        ci = int(m.group(1)) * 0x400 // R.CONTAINER_SLOT[spec["cver"]] if m else None
         c = spec["containers"][ci] if ci is not None and ci < len(spec["containers"]) else {}
         kind = c.get("kind") or ""
         if name == "Image overlapping" and _model_overlap(spec, info):
@@ -1131,7 +1132,7 @@ def _run_cli(case, ctx, info, wdir, spec=None):
     # a corrupted image must make `ahab verify` fail
     regs = [r for c in rep["containers"] for r in R.authenticated_regions(c)
             if not (c["index"] >= 1 and r[2] in ("container-header.version", "container-header.length", "container-header.tag"))]
-    for _ in range(2):
+    for _ in range(2 if regs else 0):
         s, e, name = _pick(rng, regs)
         pos, bit = _flip_pos(rng, (s, e, name)), rng.randrange(8)
         if name == "container-header.image-count" and not data[pos] & (1 << bit):
